@@ -14,7 +14,7 @@ func init() { register("C17", "other", checkC17) }
 
 func checkC17(w *World, r *Result) {
 	r.Explanation = "Decides structural necessary conditions on analysis.LoadSources and its helpers: FLW-C17a the common root handed to go/packages and returned to the caller is derived from the per-file directories only through path-separator-aware operations (an input element, filepath.Dir/Clean of the running value, or the empty string): a byte-wise common prefix is not a directory ancestor in general; every input directory takes part (a loop over all of them updates the result); the per-file value is filepath.Dir(filepath.Abs(file)); ERR-C17b every error returned by os.Stat, filepath.Abs and packages.Load is tested right after the call and propagated by a return, and type errors are counted over the whole import graph (packages.PrintErrors) and turned into an error; SHP-C17o the result slice has one slot per input, filled at the input's own index from a match of that file's absolute path, and a missing match is an error; one `file=` pattern per input; OBL-* no unguarded partial operation in these functions. Does not decide: that go/packages returns the package containing a file, nor that the root is the deepest possible one."
-	r.Rules = []string{"FLW-C17a", "ERR-C17b", "SHP-C17o", "OBL-*", "STATE-PKG"}
+	r.Rules = []string{"FLW-C17a", "ERR-C17b", "SHP-C17o", "OBL-*", "STATE-PKG", "SHP-C17o every store is a match"}
 	statePkgRule(w, r, func(rel string) bool { return rel == "analysis" })
 	checkCommonRoot(w, r)
 	checkLoadErrors(w, r)
